@@ -237,6 +237,17 @@ def _pickle_holder(c, a, b, s):
 OBS['pickle'] = (_pickle_holder, lambda a, b: ['pickle'])
 
 
+def _copy_holder(c, a, b, s):
+    """copy.copy / copy.deepcopy of the holder (a parser goes through the pickling hooks with a shallow / deep state): the copy is
+    somebody else's, the original keeps every element, owner link and index entry"""
+    h = c.h
+    y = copy.copy(h) if b % 2 == 0 else copy.deepcopy(h)
+    if is_parser(y) and b % 2 == 1:
+        y.parseStr('<q>other</q>')          # a deep copy shares nothing: it may be overwritten
+    return None
+OBS['holder.copy'] = (_copy_holder, lambda a, b: ['pickle'])
+
+
 def _dumps_only(c, a, b, s):
     return len(pickle.dumps(c.h, b % 6))
 OBS['pickle.dumps'] = (_dumps_only, lambda a, b: ['pickle'])
@@ -277,6 +288,13 @@ ponly('p.getElementById-root', SUB, lambda p, c, a, b, s: p.getElementById(s, ro
 ponly('p.getElementsByClassName', PNONE, lambda p, c, a, b, s: p.getElementsByClassName(clsq(s, b)), scr=True)
 ponly('p.getElementsByAttr', ALL, lambda p, c, a, b, s: p.getElementsByAttr(ATTRS[b % len(ATTRS)], s), scr=True)
 ponly('p.getElementsWithAttrValues', ALL, lambda p, c, a, b, s: p.getElementsWithAttrValues(ATTRS[b % len(ATTRS)], [s, 'x']), scr=True)
+def _all_values(p, k):
+    return sorted(set(e.getAttribute(k) for e in p.getAllNodes() if e.hasAttribute(k) and isinstance(e.getAttribute(k), str)))
+
+
+ponly('p.getElementsWithAttrValues-present', ALL,
+      lambda p, c, a, b, s: (p.getElementsWithAttrValues(ATTRS[b % len(ATTRS)], _all_values(p, ATTRS[b % len(ATTRS)]) + [s]),
+                             p.getElementsWithAttrValues(ATTRS[b % len(ATTRS)], iter(_all_values(p, ATTRS[b % len(ATTRS)])))))
 ponly('p.getElementsCustomFilter', ALL, lambda p, c, a, b, s: p.getElementsCustomFilter(attr_lambda(ATTRS[b % len(ATTRS)], s)), scr=True)
 ponly('p.getFirstElementCustomFilter', ALL, lambda p, c, a, b, s: p.getFirstElementCustomFilter(attr_lambda(ATTRS[b % len(ATTRS)], s)))
 ponly('p.getElementsByXPath', ALL, lambda p, c, a, b, s: p.getElementsByXPathExpression(XPATHS[b % len(XPATHS)]), scr=True)
@@ -500,7 +518,14 @@ class Check(PropCheck):
             E('span', [('style', 'font-weight: bold'), ('id', 'e1')], True, []),
             E('a', [('href', 'x'), ('class', 'k')], False, [T('<!--c-->'), E('li', [], False, [])])])
         multi = E(WRAPPER, [], False, [E('p', [('class', 'a')], False, [T('x')]), T('mid'), E('div', [('id', 'x')], False, [E('em', [], False, [])])])
-        return [('plain', rich), ('indexed', rich), ('validating', rich), ('detached', rich), ('indexed', multi), ('plain', multi)]
+        # several elements per value and several values per attribute under the attributes that get an index (a query answered
+        # from an index must not touch the lists the index holds)
+        many = E('div', [('id', 'm'), ('title', 't1'), ('data-k', 'k1')], False, [
+            E('p', [('data-k', 'k1'), ('title', 't2'), ('name', 'n1')], False, [T('a')]),
+            E('p', [('data-k', 'k2'), ('title', 't1'), ('name', 'n2')], False, [E('b', [('data-k', 'k2'), ('title', 't3')], False, [T('b')])]),
+            E('span', [('data-k', 'k3'), ('title', 't2'), ('name', 'n1')], False, [T('c')])])
+        return [('plain', rich), ('indexed', rich), ('validating', rich), ('detached', rich), ('indexed', multi), ('plain', multi),
+                ('indexed', many)]
 
     def cases(self, tier, rng):
         second = E('section', [('id', 'other'), ('class', 'o'), ('style', 'float: left')], False, [T('o'), E('b', [('class', 'a')], False, [T('x')])])
@@ -511,7 +536,10 @@ class Check(PropCheck):
                 ops = [[0, name, k % 7, (k // 7) % 11, VALUES[k % len(VALUES)]]]
                 if k % 3 == 0:
                     ops.append([1, name, 1, k % 5, 'o'])
-                yield Case({'holder': holder, 'idx': [1, 1, 1, 1], 'attr_idx': ['data-k'] if holder == 'indexed' else [],
+                if tree[1] == 'div' and tree[2][:1] == [['id', 'm']] and 'AttrValues' in name:
+                    # the document with several values per indexed attribute: the attribute asked about is an indexed one
+                    ops = [[0, name, k % 4, (ATTRS.index('data-k'), ATTRS.index('title'))[k % 2], ('k1', 't1')[k % 2]]]
+                yield Case({'holder': holder, 'idx': [1, 1, 1, 1], 'attr_idx': (['data-k', 'title'] if tree[2][:1] == [['id', 'm']] else ['data-k']) if holder == 'indexed' else [],
                             'doctype': 'DOCTYPE html' if k % 2 else None, 'tree': tree, 'tree2': second, 'ops': ops}, 'exhaustive')
         n = 6000 if tier == 'thorough' else 1400
         for i in range(n):
